@@ -102,3 +102,12 @@ impl TrackerClient {
         metainfo.tracker_url().clone() + "?info_hash=" + info_hash.as_str()
     }
 }
+
+/// Verification harness only.
+#[cfg(feature = "verif")]
+#[allow(missing_docs)]
+impl TrackerClient {
+    pub fn verif_create_url(metainfo: &Metainfo) -> String {
+        Self::create_url(metainfo)
+    }
+}
